@@ -103,9 +103,20 @@ def _run_mutant(args):
         shutil.rmtree(root, ignore_errors=True)
 
 
+class _SwapEq(ast.NodeTransformer):
+    """Behaviour-preserving rewrite: swap the operands of every two-operand == / != comparison."""
+
+    def visit_Compare(self, n):
+        self.generic_visit(n)
+        if len(n.ops) == 1 and isinstance(n.ops[0], (ast.Eq, ast.NotEq)):
+            n.left, n.comparators = n.comparators[0], [n.left]
+        return n
+
+
 def _run_normalised(args):
-    prop, repo_root, scratch = args
-    root = Path(scratch) / "normalised"
+    prop, repo_root, scratch = args[:3]
+    variant = args[3] if len(args) > 3 else "unparse"
+    root = Path(scratch) / ("normalised_" + variant)
     root.mkdir()
     try:
         replace = {}
@@ -113,7 +124,10 @@ def _run_normalised(args):
             rel = str(p.relative_to(repo_root))
             if rel.startswith("osaca/data/"):
                 continue
-            replace[rel] = ast.unparse(ast.parse(p.read_text())) + "\n"
+            tree = ast.parse(p.read_text())
+            if variant == "eqswap":
+                tree = _SwapEq().visit(tree)
+            replace[rel] = ast.unparse(tree) + "\n"
         _link_tree(repo_root, root, replace)
         try:
             return "ran", _finding_keys(prop, root)
@@ -136,8 +150,10 @@ def run(prop, ctx):
         jobs = [(prop, repo_root, scratch, dict(id=m.id, file=m.file, old=m.old, new=m.new, first=m.first, tier=m.tier)) for m in muts]
         with ProcessPoolExecutor(max_workers=min(16, max(1, len(jobs) + 1))) as ex:
             norm_future = ex.submit(_run_normalised, (prop, repo_root, scratch))
+            swap_future = ex.submit(_run_normalised, (prop, repo_root, scratch, "eqswap"))
             outs = list(ex.map(_run_mutant, jobs))
             norm = norm_future.result()
+            swap = swap_future.result()
         by_id = {m.id: m for m in muts}
         missed = []
         for mid, status, payload in outs:
@@ -180,6 +196,14 @@ def run(prop, ctx):
                                     "(formatting-sensitive rule): %s" % (prop, sorted(diff)[:4]))
         else:
             raise AnalysisError("%s self-test: analysis failed on the normalised copy: %s" % (prop, norm[1]))
+        if swap[0] == "ran":
+            results["silent_on_eq_operand_swap"] = sorted(k for _, k in swap[1]) == sorted(base_keys)
+            if not results["silent_on_eq_operand_swap"]:
+                diff = set(k for _, k in swap[1]) ^ base_keys
+                raise AnalysisError("%s self-test: findings differ on the copy with ==/!= operands swapped (operand-order "
+                                    "sensitive rule): %s" % (prop, sorted(diff)[:4]))
+        else:
+            raise AnalysisError("%s self-test: analysis failed on the ==/!= swapped copy: %s" % (prop, swap[1]))
         if missed:
             raise AnalysisError("%s self-test: %d mutant(s) not detected: %s" % (prop, len(missed), "; ".join(missed)[:1500]))
         live = results["mutants"] - results["stale"]
